@@ -3,12 +3,12 @@
 //! differential), an independent decoder written from the documented layout (injectivity
 //! oracle), boundary / random value generators and the glue that assigns and exposes one value.
 
-use ff::{Field, PrimeField};
+use ff::Field;
 use group::Group;
 use midnight_circuits::{
-    ecc::curves::CircuitCurve,
+    ecc::curves::{CircuitCurve, EdwardsCurve, WeierstrassCurve},
     field::foreign::params::{FieldEmulationParams, MultiEmulationParams as MEP},
-    instructions::*,
+    instructions::{public_input::CommittedInstanceInstructions, *},
     types::{
         AssignedBit, AssignedByte, AssignedField, AssignedForeignPoint, AssignedNative, AssignedNativePoint, AssignedScalarOfNativeCurve, Instantiable,
     },
@@ -181,38 +181,6 @@ impl Val {
         })
     }
 
-    pub fn parse_list(s: &str) -> Option<Vec<Val>> {
-        // "[A(..), B(..,..)]": split at "), "
-        let s = s.trim().strip_prefix('[')?.strip_suffix(']')?;
-        if s.trim().is_empty() {
-            return Some(vec![]);
-        }
-        let mut out = vec![];
-        let mut depth = 0usize;
-        let mut cur = String::new();
-        for ch in s.chars() {
-            match ch {
-                '(' => {
-                    depth += 1;
-                    cur.push(ch)
-                }
-                ')' => {
-                    depth -= 1;
-                    cur.push(ch)
-                }
-                ',' if depth == 0 => {
-                    out.push(Val::parse(&cur)?);
-                    cur.clear();
-                }
-                _ => cur.push(ch),
-            }
-        }
-        if !cur.trim().is_empty() {
-            out.push(Val::parse(&cur)?);
-        }
-        Some(out)
-    }
-
     /// The library's off-circuit encoder (`Instantiable::as_public_input`; for big integers the
     /// inherent `AssignedBigUint::as_public_input(v, nb_bits)`).
     pub fn encode_lib(&self) -> Vec<F> {
@@ -333,7 +301,7 @@ impl Kind {
         }
         fn fpoint<C>(raw: &[F], lb: u32, nl: usize) -> Result<C::CryptographicGroup, String>
         where
-            C: CircuitCurve<CryptographicGroup = C>,
+            C: WeierstrassCurve<CryptographicGroup = C>,
         {
             // x limbs, y limbs; the identity flag is added (scaled by 2^lb) to the first limb of x
             let mut xs = raw[..nl].to_vec();
@@ -350,6 +318,10 @@ impl Kind {
                     return Err("identity flag with non-zero coordinates".into());
                 }
                 return Ok(C::identity());
+            }
+            // curve equation by its definition (the library's `from_xy` reads (0, 0) as the identity)
+            if y.square() != x.square() * x + C::A * x + C::B {
+                return Err("coordinates do not satisfy y^2 = x^3 + A x + B".into());
             }
             C::from_xy(x, y).ok_or_else(|| "coordinates not on the curve".to_string())
         }
@@ -376,6 +348,10 @@ impl Kind {
             Kind::BlsBase => Val::BlsBase(field::<BlsFp>(raw, limb_params::<BlsFp>().0)?),
             Kind::JubPoint => {
                 // affine (x, y) of the twisted Edwards curve; identity = (0, 1)
+                let (x2, y2) = (raw[0].square(), raw[1].square());
+                if <JubjubExtended as EdwardsCurve>::A * x2 + y2 != F::ONE + <JubjubExtended as EdwardsCurve>::D * x2 * y2 {
+                    return Err("coordinates do not satisfy A x^2 + y^2 = 1 + D x^2 y^2".into());
+                }
                 let p = JubjubExtended::from_xy(raw[0], raw[1]).ok_or("coordinates not on Jubjub")?;
                 let r = JubFr::modulus();
                 // membership in the prime-order subgroup by the definition [r]P = O
